@@ -115,7 +115,7 @@ func genClause(r *rand.Rand) FClause {
 	case 0, 1:
 		return FClause{"color", pick(r, []string{"=", "=", "!="}), pick(r, c08Colors)}
 	case 2, 3:
-		return FClause{"price", pick(r, []string{"=", "!=", "<", "<=", ">", ">="}), pick(r, []string{"0", "1", "2", "2.5", "3", "4", "10"})}
+		return FClause{"price", pick(r, []string{"=", "!=", "<", "<=", ">", ">="}), pick(r, []string{"0", "1", "2", "2.5", "3", "4", "10", "0.1", "0.3", "16777216", "16777217", "1758888920", "1758888940"})}
 	case 4:
 		return FClause{"flag", pick(r, []string{"=", "!="}), pick(r, []string{"true", "false"})}
 	case 5:
@@ -164,7 +164,8 @@ func (gs *GenState) genMetaC08(r *rand.Rand, gi *GenIdx, ints bool) map[string]a
 		case 0:
 			m["color"] = pick(r, c08Colors)
 		case 1:
-			m["price"] = num(pick(r, []float64{0, 1, 2, 2.5, 3, 4, 10}))
+			// also values and literals a float32 cannot hold (decimals, 2^24+1, Unix timestamps): comparisons are in float64
+			m["price"] = num(pick(r, []float64{0, 1, 2, 2.5, 3, 4, 10, 0.1, 0.3, 16777216, 16777217, 1758888920, 1758888930, 1758888950}))
 		case 2:
 			m["flag"] = r.Intn(2) == 0
 		case 3:
